@@ -234,7 +234,8 @@ def run(pid, tier, seed):
                  "write 2 %s %s" % (first, hx(f3)), "read 3 %s %s" % (first, hx(f3)), "dumpapi 3",
                  # the other format directly, for "LP and MPS renderings agree"
                  "write 0 %s %s" % (other, hx("d%d.%s" % (k % 5, ext[other]))), "read 4 %s %s" % (other, hx("d%d.%s" % (k % 5, ext[other]))), "dumpapi 4",
-                 "solve 0 exact primal none", "solve 1 exact primal none", "solve 4 exact primal none", "getfile " + hx(f1 if not comp else f3),
+                 ] + (["solve 0 exact primal none", "solve 1 exact primal none", "solve 4 exact primal none"] if len(lp.cols) <= 12 else []) + [
+                 "getfile " + hx(f1 if not comp else f3),
                  # the plain text of both renderings of the original problem (bounds-section tie to the Lean codec)
                  "write 0 LP " + hx("o%d.lp" % (k % 5)), "getfile " + hx("o%d.lp" % (k % 5)), "write 0 MPS " + hx("o%d.mps" % (k % 5)), "getfile " + hx("o%d.mps" % (k % 5))]
         jobs.append((lp, cn, rn, lines, comp))
